@@ -275,6 +275,9 @@ SQUIDS_ALWAYS_INLINE double SUTrace(const SU_vector& suv1_, const SU_vector& suv
   auto suv1=detail::SU_vector_operator_access::make_view(suv1_);
   auto suv2=detail::SU_vector_operator_access::make_view(suv2_);
   
+  if(!(Flags&detail::EqualSizes) && suv1.size!=suv2.size)
+    throw std::runtime_error("Non-matching dimensions in SU_vector inner product");
+  
   double trace;
   const double* suv1c=suv1.components;
   const double* suv2c=suv2.components;
